@@ -436,27 +436,30 @@ CHECKS["C19"] = {
 }
 
 SCHED_WRAP = ["malloc", "calloc", "realloc", "free", "strdup", "strndup", "asprintf", "snprintf", "sprintf", "fprintf", "strncpy", "strcpy", "stpcpy",
-              "strsep", "strtok", "getline", "fopen", "fclose", "lstat", "stat", "scandir", "realpath", "strtol", "strtoll", "strtoul", "strtoull", "strtof", "strtod"]
+              "strsep", "strtok", "getline", "fopen", "fclose", "lstat", "stat", "scandir", "realpath", "strtol", "strtoll", "strtoul", "strtoull", "strtof", "strtod",
+              "open", "openat", "close", "fdopen", "fstat", "opendir", "closedir"]
 SCHED_LD = ["-Wl," + ",".join("--wrap=" + w for w in SCHED_WRAP)]
 
 CHECKS["C18"] = {
     "engine": "E3",
     "technique": "preemption-bounded systematic scheduling (iterative context bounding) of real threads at link-time interposed libc calls of the library, plus a separate free-running ThreadSanitizer pass of the same thread bodies",
-    "level_text": "every unordered pair of five thread bodies (read/query/write, build/set/merge, layered read with options, malformed file, layered read on the "
-                  "process-wide defaults - drop-ins-only mode in one thread, two-directory read in the other; each on private files "
+    "level_text": "every unordered pair of six thread bodies (read/query/write, build/set/merge, layered read with options, malformed file, layered read on the "
+                  "process-wide defaults - drop-ins-only mode in one thread, two-directory read in the other -, a write that fails followed by one that succeeds; each on private files "
                   "and objects) is executed under EVERY schedule with at most B preemptions, a scheduling point being every libc call the library makes (malloc, "
-                  "free, strdup, asprintf, snprintf, getline, fopen, lstat, scandir, strto*, ...); every thread's complete result text must equal that of the body "
+                  "free, strdup, asprintf, snprintf, getline, fopen, lstat, scandir, strto*, ... and every call that takes or releases a file descriptor: open, openat, close, fdopen, opendir, closedir); every thread's complete result text must equal that of the body "
                   "run alone; ASan active. Unsynchronised accesses that do not straddle a libc call are left to the separate free-running ThreadSanitizer pass "
-                  "(16 threads x 20 rounds x 5 bodies) whose suppressions name exactly the exempt last-error-location record",
-    "level_note": "bounded: pairs of the full bodies with <= 1 preemption (quick); additionally triples with <= 1 and pairs of shortened bodies with <= 2 preemptions (thorough); preemption only at libc calls; no weak-memory "
+                  "(16 threads x 20 rounds x 6 bodies) whose suppressions name exactly the exempt last-error-location record",
+    "level_note": "bounded: pairs of the full bodies with <= 1 preemption and the failing-write body against the file-reading bodies (shortened) with <= 2 preemptions (quick); additionally triples with <= 1 and pairs of shortened bodies with <= 2 preemptions (thorough); preemption only at libc calls; no weak-memory "
                   "effects; the TSan pass observes one family of free-running schedules (it can miss, it cannot falsely accuse); documented process-wide setters and econf_errLocation are not called concurrently",
     "rule": "case = (combination of bodies, schedule); non-trivial = at least one preemption taken; distinct = distinct choice vectors; evaluations counts complete executions",
     "deadline": {"quick": 110, "thorough": 1500},
     "parts": [
         {"name": "sched", "harness": "c18", "variant": "sched", "ldflags": SCHED_LD, "quick": ["--p0", 1, "--p1", 0], "thorough": ["--p0", 1, "--p1", 1],
          "deadline_share": 0.35, "case_timeout": 60, "floor": {"quick": 1000, "thorough": 10000}},
-        {"name": "sched-bound2", "harness": "c18", "variant": "sched", "ldflags": SCHED_LD, "tiers": ["thorough"], "thorough": ["--p0", 2, "--p1", 0, "--p2", 1],
-         "deadline_share": 0.5, "case_timeout": 60, "floor": {"thorough": 100000}},
+        {"name": "sched-bound2-failing-write", "harness": "c18", "variant": "sched", "ldflags": SCHED_LD, "quick": ["--p0", 2, "--p1", 0, "--p2", 1, "--p3", 6, "--p4", 41, "--p5", 16], "thorough": ["--p0", 2, "--p1", 0, "--p2", 1, "--p3", 6, "--p5", 16],
+         "deadline_share": 0.3, "case_timeout": 60, "floor": {"quick": 1000, "thorough": 1000}},
+        {"name": "sched-bound2", "harness": "c18", "variant": "sched", "ldflags": SCHED_LD, "tiers": ["thorough"], "thorough": ["--p0", 2, "--p1", 0, "--p2", 1, "--p5", 4],
+         "deadline_share": 0.4, "case_timeout": 60, "floor": {"thorough": 100000}},
         {"name": "tsan", "harness": "c18t", "variant": "tsan", "shards": 1, "quick": ["--p0", 16, "--p1", 20], "thorough": ["--p0", 16, "--p1", 200],
          "deadline_share": 0.15, "case_timeout": 600, "floor": {"quick": 100, "thorough": 1000}},
     ],
